@@ -545,6 +545,7 @@ const (
 	ekFresh    // errors.New / fmt.Errorf without %w: certainly non-nil, matches no sentinel
 	ekFrom     // error result of a call: From describes it
 	ekUnknown
+	ekCond // the error of the call at Site if that call failed, otherwise Else
 )
 
 type ErrV struct {
@@ -555,6 +556,7 @@ type ErrV struct {
 	From   string
 	Site   ssa.Instruction
 	NonNil bool // certainly non-nil (set for ekFrom on the branch where it was tested)
+	Else   *ErrV // ekCond: the value when the call at Site succeeded
 }
 
 func (e ErrV) String() string {
@@ -573,6 +575,8 @@ func (e ErrV) String() string {
 		return fmt.Sprintf("err:fresh(%q; %s)", e.Format, strings.Join(p, ", "))
 	case ekFrom:
 		return "err:from(" + e.From + ")"
+	case ekCond:
+		return "err:(" + e.From + " if it failed, else " + e.Else.String() + ")"
 	}
 	return "err:?"
 }
